@@ -85,7 +85,7 @@ fn gen_cycle(ctx: &GenCtx) -> Vec<Value> {
 }
 
 fn gen_flip(ctx: &GenCtx) -> Vec<Value> {
-    let n = ctx.n(700, 40_000);
+    let n = ctx.n(700, 8_000);
     (0..n).map(|i| plan_lock(&mut Planner::new(ctx.seed, "c08.flip", i as u64), true)).collect()
 }
 
